@@ -190,6 +190,10 @@ func checkC01(c *ctx) {
 				c.Violation("C01 "+bad+"\nchunkMode="+fmt.Sprint(mode)+"\nbatch: "+clip(b.Sx().String()), false)
 				return
 			}
+			if bad := zh.IteratorAcrossLists(sb, cont); bad != "" {
+				c.Violation("C01 "+bad+"\nbatch: "+clip(b.Sx().String()), false)
+				return
+			}
 			if bad := zh.InterleavedLookups(sb, cont); bad != "" {
 				c.Violation("C01 "+bad+"\nchunkMode="+fmt.Sprint(mode)+"\nbatch: "+clip(b.Sx().String()), false)
 				return
